@@ -134,6 +134,8 @@ func checkC06(p *Program, r *Report) {
 	} else {
 		r.Unresolved("C06.pub", "(*WIF).SerializePubKey")
 	}
+	canonicalInput(p, r, "C06.canon", []*ssa.Function{fn})
+	base58ByteLookup(p, r, "C06.canon")
 	r.Floor("C06.len", 1)
 	r.Floor("C06.magic", 1)
 	r.Floor("C06.checksum", 1)
